@@ -17,10 +17,15 @@ import (
 
 type funcNameClient struct {
 	BaseClient
-	p     *Program
-	fn    string
-	ident string // constant key of TokenIdentifier
-	n     int
+	p      *Program
+	fn     string
+	ident  string // constant key of TokenIdentifier
+	n      int
+	inline *types.Func
+}
+
+func (c *funcNameClient) Inline(e *Engine, call *ast.CallExpr, callee *types.Func, decl *ast.FuncDecl) bool {
+	return c.inline != nil && callee == c.inline
 }
 
 func (c *funcNameClient) Visit(e *Engine, st *State, n ast.Node) *State {
@@ -91,6 +96,32 @@ func ruleC04FuncName(p *Program, r *Run) {
 		for _, m := range e.Errs {
 			r.Fail("C04/funcname", fn+" engine", "-", m)
 		}
+		failed := false
+		for _, s := range e.Sites() {
+			if len(s.Fails) > 0 {
+				failed = true
+			}
+		}
+		// a helper that receives the token as a parameter: decided where it is called (helper interpreted in place)
+		if fobj := FuncObj(pkg, fd); failed && p.onlyCalledDirectly(fobj) && smallBody(fd) {
+			decided := 0
+			for _, caller := range AllFuncs(pkg) {
+				if caller == fd || !p.callsAny(caller, map[*types.Func]bool{fobj: true}) {
+					continue
+				}
+				c2 := &funcNameClient{p: p, fn: FuncName(pkg, caller), ident: constKey(idc.Val()), inline: fobj}
+				e2 := NewEngine(p, pkg, caller, c2)
+				e2.Run(nil)
+				for _, m := range e2.Errs {
+					r.Fail("C04/funcname", c2.fn+" engine", "-", m)
+				}
+				decided += len(e2.Sites())
+				e2.FlushSites(r)
+			}
+			if decided > 0 {
+				continue
+			}
+		}
 		e.FlushSites(r)
 	}
 	r.Floor("C04/funcname", 1)
@@ -109,7 +140,7 @@ func ruleC05Refs(p *Program, r *Run) {
 		if ev.Kind != "Q" {
 			continue
 		}
-		name := ev.Func.Name.Name
+		name := declName(ev.Func)
 		if name != "splitQueries" && name != "chainSubquery" {
 			continue
 		}
@@ -349,7 +380,7 @@ func (c *lostErrClient) PostAssign(e *Engine, st *State, lhs, rhs []ast.Expr, _ 
 		}
 		if o := objOf(e.Info, id); o != nil && isErrorType(o.Type()) {
 			// a fresh result of a call: pending until looked at
-			if f := Callee(e.Info, call); f != nil && f.Name() == "makeErrorOpaque" || f != nil && f.Name() == "joinErrors" {
+			if f := Callee(e.Info, call); f != nil && fnName(f) == "makeErrorOpaque" || f != nil && fnName(f) == "joinErrors" {
 				continue
 			}
 			out = out.WithExt("pend:"+e.objKey(o), "1")
@@ -449,6 +480,16 @@ func ruleC15Returns(p *Program, r *Run) {
 		}
 		return true
 	})
+	if parts == nil {
+		ast.Inspect(fd.Body, func(n ast.Node) bool {
+			if ret, ok := n.(*ast.ReturnStmt); ok && len(ret.Results) == 1 {
+				if call, ok := ast.Unparen(ret.Results[0]).(*ast.CallExpr); ok && IsBuiltinCall(info, call, "append") && len(call.Args) >= 2 {
+					parts = objOf(info, call.Args[0])
+				}
+			}
+			return true
+		})
+	}
 	okRet, nret := parts != nil, 0
 	why := "no result list built from slices of the source"
 	ast.Inspect(fd.Body, func(n ast.Node) bool {
@@ -457,7 +498,19 @@ func ruleC15Returns(p *Program, r *Run) {
 			return false
 		case *ast.ReturnStmt:
 			nret++
-			if len(v.Results) != 1 || objOf(info, v.Results[0]) != parts {
+			good := len(v.Results) == 1 && objOf(info, v.Results[0]) == parts
+			// return append(parts, source[start:])
+			if len(v.Results) == 1 && !good {
+				if call, ok := ast.Unparen(v.Results[0]).(*ast.CallExpr); ok && IsBuiltinCall(info, call, "append") && len(call.Args) >= 2 && objOf(info, call.Args[0]) == parts {
+					good = true
+					for _, a := range call.Args[1:] {
+						if sl, ok := ast.Unparen(a).(*ast.SliceExpr); !ok || objOf(info, sl.X) != source {
+							good = false
+						}
+					}
+				}
+			}
+			if !good {
 				okRet = false
 				why = "the return at " + p.Pos(v.Pos()) + " returns " + exprStr(v.Results[0]) + ", not the list of token-bounded pieces"
 			}
@@ -576,7 +629,7 @@ func (c *clauseSpanClient) PreAssign(e *Engine, st *State, lhs, rhs []ast.Expr, 
 			}
 		case "NullsSpan":
 			if call, isCall := ast.Unparen(r).(*ast.CallExpr); isCall && len(call.Args) == 2 {
-				if fn := Callee(e.Info, call); fn != nil && fn.Name() == "newSpan" {
+				if fn := Callee(e.Info, call); fn != nil && fnName(fn) == "newSpan" {
 					a, b := tokOfSpan(call.Args[0], "Start"), tokOfSpan(call.Args[1], "End")
 					if a != nil && b != nil {
 						wa, ka := c.textOf(e, st, a)
